@@ -137,6 +137,9 @@ func (s *Sim) apply(st Step) bool {
 		return true
 	case "deliver":
 		return s.Deliver(cacheKinds[abs(st.A)%len(cacheKinds)])
+	case "deliverb":
+		// A=kind, B=batch size: the cache runs ahead of the handler notifications
+		return s.DeliverBatch(cacheKinds[abs(st.A)%len(cacheKinds)], 2+abs(st.B)%3)
 	case "deliverall":
 		any := false
 		for _, k := range cacheKinds {
@@ -193,6 +196,20 @@ func (s *Sim) apply(st Step) bool {
 		return s.stepMkTwin(st)
 	case "finish":
 		return s.stepFinish()
+	case "relto":
+		return s.stepReleaseTo(st)
+	case "podnoid":
+		// somebody strips the pod-name label of a pod (the controller repairs the
+		// identity with an update)
+		p := s.podByIndex(st.A)
+		if st.S != "" {
+			p, _ = Peek[*v1.Pod](s.Store, KPod, NS, st.S)
+		}
+		if p == nil || p.Labels[lblPodName] == "" {
+			return false
+		}
+		s.count("user.podnoid")
+		return Mutate(s.Store, KPod, p.Namespace, p.Name, func(o *v1.Pod) bool { delete(o.Labels, lblPodName); return true })
 	}
 	harnessf("unknown step kind %q", st.K)
 	return false
@@ -226,6 +243,35 @@ func (s *Sim) stepRelease(st Step) bool {
 	s.releaseWith(w, code, st.C)
 	info.Last = w.done
 	s.Releases = append(s.Releases, info)
+	return true
+}
+
+// relto: A=parked worker, B=target. Releases the worker's calls without faults
+// until the call it is parked on is of the target kind (1 update pods, 2 status
+// write, 3 create pods, 4 delete pods) or the reconcile ends. A primitive for
+// scenario tails: "stop right before the write that ...".
+func (s *Sim) stepReleaseTo(st Step) bool {
+	ws := s.ParkedWorkers()
+	if len(ws) == 0 {
+		return false
+	}
+	w := ws[abs(st.A)%len(ws)]
+	at := func(c *APICall) bool {
+		switch abs(st.B) {
+		case 1:
+			return c.Kind == KPod && c.Verb == "update"
+		case 2:
+			return c.Kind == KSet && c.Sub == "status"
+		case 3:
+			return c.Kind == KPod && c.Verb == "create"
+		case 4:
+			return c.Kind == KPod && c.Verb == "delete"
+		}
+		return false
+	}
+	for i := 0; i < 200 && !w.done && w.pending != nil && !at(w.pending); i++ {
+		s.releaseWith(w, FNone, 0)
+	}
 	return true
 }
 
@@ -349,6 +395,10 @@ func containsStr(s, sub string) bool {
 
 // decide turns a fault code into a Decision for call c.
 func (s *Sim) decide(a *actor, c *APICall, code int, arg int) Decision {
+	if s.Cfg.StatusOutage && !s.quiet && c.Kind == KSet && c.Sub == "status" && c.IsWrite() {
+		// a long outage of the status endpoint (ends with the chaos phase)
+		return Decision{Kind: DecFailBefore, Err: apierrors.NewServiceUnavailable("injected outage"), Label: "outage.status"}
+	}
 	if code == FNone || s.Cfg.Dialect == "none" || s.quiet {
 		return Decision{}
 	}
@@ -458,8 +508,34 @@ func (s *Sim) raceFor(c *APICall, alt bool, arg int) (func(), string) {
 		if alt {
 			return func() { st.Remove(c.Kind, c.NS, c.Name) }, "race.notfound"
 		}
+		if c.Kind == KRev && arg >= 2 {
+			// the writer that wins the race is another controller adopting the revision
+			// (a set with an overlapping selector, the built-in controller re-adopting)
+			return func() {
+				Mutate(st, KRev, c.NS, c.Name, func(o *appsv1.ControllerRevision) bool {
+					if controllerOf(o) != nil {
+						touchAnn(o)
+						return true
+					}
+					o.OwnerReferences = append(o.OwnerReferences, ownerRefFor(crdAPIVersion, crdKind, "rival", types.UID("rival-uid")))
+					return true
+				})
+			}, "race.adopted"
+		}
 		return func() { s.bumpRV(c.Kind, c.NS, c.Name) }, "race.conflict"
 	case "delete", "patch":
+		if c.Kind == KPod && c.Verb == "patch" && alt && arg%2 == 1 {
+			// the pod was deleted and another pod created under its name since the
+			// controller's cache saw it: same name, other UID, nothing of this set's
+			return func() {
+				st.Remove(KPod, c.NS, c.Name)
+				p := &v1.Pod{}
+				p.Name = c.Name
+				p.Labels = map[string]string{"squatter": "true"}
+				p.Spec.Containers = []v1.Container{{Name: "x", Image: "x"}}
+				stCreate(st, KPod, c.NS, p)
+			}, "race.replaced"
+		}
 		return func() { st.Remove(c.Kind, c.NS, c.Name) }, "race.notfound"
 	case "get":
 		if c.Kind == KSet {
